@@ -175,9 +175,11 @@ func newBattle(c simCfg, withReports bool) (b *battle, errs string) {
 	}
 	b = &battle{cfg: c, sim: sim, full: true}
 	b.prev = make([]ins, c.M)
+	// the listener is always attached (executed PCs are part of every trace); per-task core snapshots and the
+	// StateRecorder only when reports are being checked
+	b.lis = &listener{sim: sim, m: c.M, snap: withReports}
+	sim.AddReporter(b.lis)
 	if withReports {
-		b.lis = &listener{sim: sim, m: c.M, snap: true}
-		sim.AddReporter(b.lis)
 		b.rec = gmars.NewStateRecorder(sim)
 		sim.AddReporter(b.rec)
 	}
